@@ -110,6 +110,23 @@ def check(ctx):
     offenders = []
     allowed_hits = {}
     total = 0
+    # a private helper that is only ever called from allow-listed functions (a validation block of Device.__init__ moved into
+    # `_as_probe_points`) inherits their entry
+    allow = dict(ALLOW_AFTER_WRITE)
+    callers: Dict[str, Set[str]] = {}
+    for g_, outs_ in cg.edges.items():
+        for h_ in outs_:
+            callers.setdefault(h_, set()).add(g_)
+    changed_ = True
+    while changed_:
+        changed_ = False
+        for fq_ in reach:
+            if fq_ in allow or not fq_.split(".")[-1].split(":")[-1].startswith("_") or fq_.split(".")[-1].startswith("__"):
+                continue
+            cs_ = callers.get(fq_, set())
+            if cs_ and all(c_ in allow for c_ in cs_):
+                allow[fq_] = "private helper of " + ", ".join(sorted(c_.split(":")[1] for c_ in cs_)) + ": " + allow[sorted(cs_)[0]]
+                changed_ = True
     for fq in sorted(reach | {f_solve.fq}):
         f = cg.funcs[fq]
         nodes = ast.walk(f.node) if fq != f_solve.fq else ast.walk(W)
@@ -120,13 +137,13 @@ def check(ctx):
                 total += 1
                 if cls in STATE_ERRORS:
                     continue
-                if fq in ALLOW_AFTER_WRITE:
+                if fq in allow:
                     allowed_hits.setdefault(fq, 0)
                     allowed_hits[fq] += 1
                     continue
                 offenders.append(f"{fq} L{n.lineno}: raise {cls}")
     ctx.ob("R19.2", f"raise sites reachable after the first write ({len(reach)} functions, {total} raise sites)", not offenders,
-           detail={"offenders": offenders, "allow_listed": {k: f"{v} site(s): {ALLOW_AFTER_WRITE[k]}" for k, v in allowed_hits.items()}},
+           detail={"offenders": offenders, "allow_listed": {k: f"{v} site(s): {allow[k]}" for k, v in allowed_hits.items()}},
            where=f_solve.fq, construct="input rejections after the first write", loc=loc(f_solve, W),
            message=f"input-validation errors can be raised after output exists: {offenders}",
            consequence="an ill-posed problem is rejected only after an output file was created")
@@ -271,12 +288,20 @@ def guards(ctx, f_init, f_solve):
     ctx.ob("R19.3", "invalid / multiply-connected polygons are rejected by the points setter", ok, detail=txts, where=fp.fq,
            construct="polygon validity guards", message=f"polygon guards: {txts}", consequence="self-intersecting outlines reach the mesher")
     fd = repo.func("tdgl.device.device", "Device.__init__")
-    from ..dataflow import canon_bound_text
-    txts = [canon_bound_text(fd.node, gs[-1][0].test) for n, gs in raise_guards(fd) if gs]
-    need = ["each(self.terminals).name is None or each(self.terminals).name in L0", "not each([self.film] + self.holes).is_valid",
-            "len(self.holes) != len({each(self.holes).name for each(self.holes) in self.holes})",
-            "not self.contains_points(probe_points).all()"]
-    missing = [w for w in need if w not in txts]
+    # Device.__init__ followed (pvs/smallstep.py; private helpers included) on eight small devices: one good, one without optional
+    # parts, and one for each way of being ill-defined
+    cases = [("well defined", {}, "return"), ("no holes, terminals or probe points", {"bare": True}, "return"),
+             ("a terminal without a name", {"tnames": ("source", None)}, "raise"), ("two terminals of one name", {"tnames": ("a", "a")}, "raise"),
+             ("an invalid film polygon", {"invalid": "FILM"}, "raise"), ("an invalid hole polygon", {"invalid": "H1"}, "raise"),
+             ("two holes of one name", {"hnames": ("h", "h")}, "raise"), ("probe points of shape (n,)", {"pp_ndim": 1}, "raise"),
+             ("probe points outside the film", {"pp_inside": False}, "raise"),
+             ("probe points inside the outline of the film but in a hole", {"pp_inside": "outline only"}, "raise")]
+    missing, txts = [], {}
+    for what, sc, want in cases:
+        kind_ = follow_device_init(repo, fd, sc)
+        txts[what] = kind_
+        if kind_ != want:
+            missing.append(f"{what}: {'accepted' if kind_ == 'return' else 'rejected'}")
     ctx.ob("R19.3", "device definition checks: unique terminal/hole names, valid polygons, probe points inside the film", not missing,
            detail={"found": txts, "missing": missing}, where=fd.fq, construct="device definition guards", message=f"missing device guards: {missing}",
            consequence="duplicate names or outside probes are accepted")
@@ -480,3 +505,57 @@ def terminal_current_validator(ctx, fv):
     ctx.ob("R19.3", "callable currents are checked at sampled times, dict currents once", sampled and balance_ok,
            detail={k: v[2] for k, v in res.items()}, where=fv.fq, construct="validator dispatch", message=f"validator does not cover both input forms: {res}",
            consequence="time-dependent terminal currents are never checked")
+
+
+def follow_device_init(repo, fd, sc) -> str:
+    """'return' / 'raise' of Device.__init__ in the model for one small device description"""
+    from ..run_trace import _RunMachine, RunTrace
+    from ..smallstep import Opaque as SO, follow_private_methods, module_constants
+    D = repo.cls("tdgl.device.device", "Device")
+    params = [a.arg for a in fd.node.args.args + fd.node.args.kwonlyargs]
+    for need in ("film", "holes", "terminals", "probe_points"):
+        if need not in params:
+            raise AnalysisError(f"Device.__init__ no longer takes `{need}`")
+    tn = sc.get("tnames", ("source", "drain"))
+    hn = sc.get("hnames", ("h0", "h1"))
+    names = {"T0.name": tn[0], "T1.name": tn[1], "H0.name": hn[0], "H1.name": hn[1], "FILM.name": "film"}
+
+    def attrs(text):
+        if text in names:
+            return names[text]
+        if text.endswith(".is_valid") and text.split(".")[0] in ("FILM", "H0", "H1"):
+            return sc.get("invalid") != text.split(".")[0]
+        if text.endswith(".ndim"):
+            return sc.get("pp_ndim", 2)
+        if text.endswith(".shape"):
+            return (3, 2) if sc.get("pp_ndim", 2) == 2 else (3,)
+        return NotImplemented
+
+    def call(m, node, name, args, kwargs):
+        if name.endswith(".all") and "contains_points" in name:
+            inside = sc.get("pp_inside", True)
+            if inside == "outline only":          # Device.contains_points knows the holes, the film polygon alone does not
+                return not name.startswith("self.contains_points(")
+            return inside
+        return NotImplemented
+    env = dict(module_constants(fd.module.tree))
+    bare = sc.get("bare")
+    given = {"self": SO("self"), "name": "dev", "layer": SO("LAYER"), "film": SO("FILM"), "holes": None if bare else [SO("H0"), SO("H1")],
+             "terminals": None if bare else [SO("T0"), SO("T1")], "probe_points": None if bare else SO("PP"), "length_units": "um"}
+    m0 = _RunMachine({}, lambda t: NotImplemented, lambda *a: NotImplemented)
+    m0.self_state, m0.trace = {}, RunTrace({})
+    defaults = dict(zip([a.arg for a in fd.node.args.args][len(fd.node.args.args) - len(fd.node.args.defaults):], fd.node.args.defaults))
+    for kw_, d_ in zip(fd.node.args.kwonlyargs, fd.node.args.kw_defaults):
+        if d_ is not None:
+            defaults[kw_.arg] = d_
+    for p_ in params:
+        if p_ in given:
+            env[p_] = given[p_]
+        elif p_ in defaults:
+            env[p_] = m0.ev(defaults[p_])
+        else:
+            raise AnalysisError(f"Device.__init__ has a parameter `{p_}` the model does not know")
+    mach = _RunMachine(env, attrs, follow_private_methods(D, call), fuel=16, undecided=lambda t: None)
+    mach.self_state, mach.trace = {}, RunTrace({})
+    kind, _ = mach.run_function(fd.node)
+    return kind
